@@ -158,8 +158,29 @@ let vm_invariants (s : vm) : string =
   if r <> "" then r
   else if L.exists (fun w -> int_of_z w < 0) s.data then "range:neg" else ""
 
+let trh = ref 0 and trn = ref 0
+(* the same rolling hash as impl_driver (arithmetic modulo 2^61-1 needs 128-bit products: do it in steps) *)
+let mulmod a b m =
+  (* a*b mod m for a,b < 2^61 using double-and-add *)
+  let r = ref 0 and a = ref (a mod m) and b = ref b in
+  while !b > 0 do
+    if !b land 1 = 1 then r := (!r + !a) mod m;
+    a := (!a * 2) mod m;
+    b := !b lsr 1
+  done; !r
+let step_traced (s : vm) =
+  let m = 2305843009213693951 in
+  (match Base.znth s.prog.code s.ip with
+   | Some i ->
+       (match i.iop with
+        | POTENTIAL_BREAK | BREAK | HALT -> ()
+        | _ -> trh := (mulmod !trh 1000003 m + (int_of_z s.ip * 31 + 7) mod m) mod m; incr trn)
+   | None -> ());
+  get (exec1 s)
+
 let run_vm tk =
   let p = read_program tk in
+  trh := 0; trn := 0;
   let s = ref (init p) in
   let m = num tk in
   for _ = 1 to m do
@@ -171,13 +192,26 @@ let run_vm tk =
          s := s'; pr "r=%d " (if r then 1 else 0)
      | "C" -> s := get (clearBreakpoints !s); pr "r=1 "
      | "S" -> let v = num tk <> 0 in s := setSteppingMode !s v; pr "r=1 "
-     | "R" -> s := get (reset !s); pr "r=1 "
+     | "R" -> s := get (reset !s); trh := 0; trn := 0; pr "r=1 "
+     | "P" ->
+         let cap = num tk in
+         pr "path=";
+         (try
+           for _ = 1 to cap do
+             pr "%d," (int_of_z !s.ip);
+             let halted = get (isDone !s) in
+             let (s', _) = step_traced !s in
+             s := s';
+             if halted then raise Exit
+           done
+         with Exit -> ());
+         pr " r=1 "
      | "X" | "XR" ->
          let cap = if c = "X" then num tk else 10000000 in
          let stopped = ref false in
          let n = ref 0 in
          while not !stopped && !n < cap do
-           let (s', b) = get (exec1 !s) in
+           let (s', b) = step_traced !s in
            s := s'; incr n; if b then stopped := true
          done;
          if not !stopped then raise (Stop "FUEL");
@@ -189,7 +223,7 @@ let run_vm tk =
          let bad = ref "" in
          let maxdata = ref 0 and maxdepth = ref 0 in
          while not !stopped && !n < cap do
-           let (s', b) = get (exec1 !s) in
+           let (s', b) = step_traced !s in
            s := s';
            if !bad = "" then begin
              let r = vm_invariants !s in
@@ -203,11 +237,11 @@ let run_vm tk =
          if not !stopped then raise (Stop "FUEL");
          pr "r=1 "
      | "I" ->
-         let (s', b) = get (exec1 !s) in
+         let (s', b) = step_traced !s in
          s := s'; pr "r=%d " (if b then 1 else 0)
      | _ -> raise Bad_case);
     print_vm_state !s;
-    pr " | "
+    pr " tr=%d:%d | " !trn !trh
   done;
   pr "END"
 
